@@ -144,4 +144,29 @@ theorem find_of_mem_nodup {l : List (PU × Rat)} (hd : (l.map (·.1)).Nodup) {p 
       rw [List.find?_cons_of_neg (by simpa using hne)]
       exact ih hd.2 he
 
+/-- with distinct ids the LAST listed figure of a unit is the FIRST (the only) one: `planningUnitValueList` reads what
+`EncVar.unit` reads -/
+theorem unitLast_eq_find {l : List (PU × Rat)} (hd : (l.map (·.1)).Nodup) (p : PU) :
+    unitLast l p = match l.find? (fun x => x.1 == p) with | some x => x.2 | none => 0 := by
+  have gen : ∀ (l : List (PU × Rat)) (acc : Rat), (l.map (·.1)).Nodup →
+      l.foldl (fun acc x => if x.1 = p then x.2 else acc) acc =
+        match l.find? (fun x => x.1 == p) with | some x => x.2 | none => acc := by
+    intro l
+    induction l with
+    | nil => intro acc _; rfl
+    | cons e es ih =>
+      intro acc hd
+      rw [List.map_cons, List.nodup_cons] at hd
+      rw [List.foldl_cons]
+      by_cases he : e.1 = p
+      · rw [if_pos he, List.find?_cons_of_pos (by simpa using he), ih _ hd.2]
+        have hnone : es.find? (fun x => x.1 == p) = none := by
+          rw [List.find?_eq_none]
+          intro x hx hxp
+          have : x.1 = p := by simpa using hxp
+          exact hd.1 (he ▸ this ▸ List.mem_map_of_mem (f := (·.1)) hx)
+        rw [hnone]
+      · rw [if_neg he, List.find?_cons_of_neg (by simpa using he), ih _ hd.2]
+  exact gen l 0 hd
+
 end Crem.Catchment
